@@ -29,6 +29,20 @@ def colours(ctx):
           (1, 0.5, 0.5), (0.5, 1, 0.5), (0.5, 0.5, 1), (0.3, 0.3, 0.7), (0.7, 0.3, 0.3), (1e-4, 2e-4, 3e-4)]
     for _ in range(ctx.n(200, 4000)):
         cs.append(tuple(rng.random() for _ in range(3)))
+    # ties and near-ties (0 .. 64 float32 ulps) between two channels, in every channel order and with every channel dominant: the hue sits on a
+    # sector border (k pi / 3, incl. the wrap 0 = 2 pi), where the arg-max switches and the float modulo may return the period itself
+    for dom in range(3):
+        for (big, small) in ((0.5, 0.01), (0.9, 0.3), (1.0, 0.0), (0.25, 0.2)):
+            for ulps in (0, 1, 2, 5, 17, 64):
+                for which in (0, 1):
+                    c = [small, small, small]
+                    c[dom] = big
+                    others = [i for i in range(3) if i != dom]
+                    v = np.float32(small)
+                    for _u in range(ulps):
+                        v = np.nextafter(v, np.float32(1.0))
+                    c[others[which]] = float(v)
+                    cs.append(tuple(c))
     for _ in range(ctx.n(30, 300)):   # gamut boundary
         c = [rng.random() for _ in range(3)]
         c[rng.randrange(3)] = rng.choice([0.0, 1.0])
@@ -162,6 +176,23 @@ def run(ctx):
         r3 = f(x[0])
         if not torch.allclose(r3.reshape(r1.shape), r1, atol=1e-6):
             ctx.violation('%s: a 3xHxW image differs from its 1x3xHxW batch' % name, {'fn': name}, {'what': 'rank3', 'fn': name})
+    # ---- hsv_to_rgb at and around the sector borders k pi / 3 (k = 0 .. 6: the wrap-around hue 2 pi is what rgb_to_hsv returns for some near-ties)
+    import colorsys
+    for kk in range(7):
+        for dh in (0.0, 1e-6, -1e-6):
+            hue = kk * np.pi / 3 + dh
+            if hue < 0:
+                continue
+            for (sat, val) in ((0.4, 0.3), (1.0, 1.0), (0.98, 0.5)):
+                t = torch.tensor([hue, sat, val], dtype=torch.float32).reshape(1, 3, 1, 1)
+                got = CC.hsv_to_rgb(t).reshape(3).numpy().astype(np.float64)
+                want = np.array(colorsys.hsv_to_rgb((float(np.float32(hue)) / (2 * np.pi)) % 1.0, sat, val))
+                ctx.case(('hsv_border', kk, dh, sat), True)
+                ctx.count('hsv_to_rgb/sector_border')
+                if not np.allclose(got, want, atol=2e-5):
+                    ctx.violation('hsv_to_rgb at hue %g (sector border %d pi/3), s = %g, v = %g: got %s, the hexcone model gives %s'
+                                  % (hue, kk, sat, val, np.round(got, 6).tolist(), np.round(want, 6).tolist()),
+                                  {'hsv': [hue, sat, val], 'what': 'hsv_border'}, {'what': 'hsv_sector_border'})
     # ---- the Lab pair also accepts channel-last images [m x n x 3] (color_map feeds lab_to_srgb that way): same pixels, same places,
     # on non-square images, and the round trip / colour transfer onto itself return the image
     for (hh, ww) in ((4, 5), (6, 6), (7, 2)):
